@@ -47,6 +47,8 @@ QUICK = [
     (scn("2 publishers, 2 competing subscribers on one existing channel", ["a"], P("a", "a"), P("a"), S("a"), S("a*")), 1, "shared", 60),
     (scn("3 publishers, exact + star subscriber, existing and new", ["a"], P("a", "c"), P("c", "a"), P("c"), S("c"), S("*")), 1, "shared", 60),
     (scn("new channels seen by a running star subscriber", [], P("x.1"), P("x.2"), S("x.*")), 2, "shared", 60),
+    (scn("bracket and question-mark patterns over existing and new channels", ["jobs.1.cfg"], P("jobs.1.cfg", "jobs.2.cfg"), P("jobs.3.cfg"),
+         S("jobs.[12].cfg"), S("jobs.?.cfg")), 1, "shared", 60),
 ]
 THOROUGH = [
     (scn("2 first publishers of one new channel", [], P("c"), P("c")), 3, "lines", 200),
@@ -70,7 +72,7 @@ def pat_lit(p):
         return "(PExact %s)" % cq_str(p)
     if p.endswith("*") and not (set(p[:-1]) & GLOB):
         return "(PPrefix %s)" % cq_str(p[:-1])
-    raise ValueError("pattern outside the modelled class: %r" % p)
+    return "(PGlob %s)" % cq_str(p)          # any shell-style pattern: Model/Glob.v
 
 
 def thread_lit(t):
@@ -162,6 +164,7 @@ def run(ck):
     ck.notes["corpus"] = {"entries": len(corpus_entries()), "oracle_hits": corpus_hits}
 
     sequential_oracles(ck)
+    glob_correspondence(ck, random.Random(ck.seed * 31 + 14), 6000 if thorough else 1500)
 
     # ---------- enumerate schedules of the real code
     plan = THOROUGH if thorough else QUICK
@@ -295,6 +298,72 @@ def fallback_search(ck, thorough):
                               {"scenario": job["scenario"], "schedule": x["schedule"], "points": "lines"})
     ck.cov["evaluations"] = n
     ck.notes["fallback"] = "anchored analysis failed; %d schedules explored with generic points + sequential sequences" % n
+
+
+GLOB_HEADER = """From Coq Require Import List String Bool. Import ListNotations. Open Scope string_scope.
+From SV Require Import Model.Glob.
+Definition cs : list gcase := [
+%s
+].
+Eval vm_compute in gbad cs 0.
+"""
+
+
+def glob_correspondence(ck, rng, n):
+    """Model/Glob.v against the matcher the transport really uses (the `fnmatch` imported by in_memory.py): random
+    patterns over literals, *, ?, brackets, !, - and random channel names; compared inside Coq."""
+    import semantiva.execution.transport.in_memory as mod
+    match = getattr(mod, "fnmatch", None)
+    if match is None or not callable(match):
+        ck.corr_problem("in_memory.py does not import fnmatch any more: pattern routing cannot be tied to Model/Glob.v", "")
+        return
+    PA, NA = "ab.12*?[]!-", "ab.12[]-!"
+    fixed_p = ["jobs.[12].cfg", "jobs.[12].*", "jobs.[!1].cfg", "jobs.?.cfg", "*.[sc]*", "[a-b]*", "x[[]1]", "*", "jobs.*.status", "[b-a]", "[!]", "[]a]", "a[b-", ""]
+    fixed_n = ["jobs.1.cfg", "jobs.3.cfg", "jobs.12.cfg", "jobs.1.status", "a", "ab", "x[1]", "data.s1", "]", "[!]", "a[b-", ""]
+    cases = [(p, c) for p in fixed_p for c in fixed_n]
+    def instance(p_):
+        # a name derived from the pattern (so that about half of the cases match): * -> a short run, ? -> one character,
+        # a bracket expression -> its first member (or another character when negated), everything else itself
+        out, i = "", 0
+        while i < len(p_):
+            ch = p_[i]
+            if ch == "*":
+                out += "".join(rng.choice("ab.1") for _ in range(rng.randint(0, 2)))
+            elif ch == "?":
+                out += rng.choice("ab.12")
+            elif ch == "[" and "]" in p_[i + 2:]:
+                j = p_.index("]", i + 2)
+                body = p_[i + 1:j]
+                out += rng.choice("ab12") if body.startswith("!") else (body[0] if body else "")
+                i = j
+            else:
+                out += ch
+            i += 1
+        return out
+    while len(cases) < n:
+        p_ = "".join(rng.choice(PA) for _ in range(rng.randint(0, 7)))
+        c = instance(p_) if rng.random() < 0.6 else "".join(rng.choice(NA) for _ in range(rng.randint(0, 5)))
+        cases.append((p_, c))
+    lits, kept = [], []
+    for p_, c in cases:
+        try:
+            b = bool(match(c, p_))
+        except Exception:  # noqa
+            continue
+        kept.append((p_, c, b))
+        lits.append("(%s, %s, %s)" % (cq_str(p_), cq_str(c), "true" if b else "false"))
+    shards = [GLOB_HEADER % ";\n".join(lits[i:i + 1500]) for i in range(0, len(lits), 1500)]
+    per, errs = core.mismatches("C14_glob", shards, timeout=600)
+    for k, rc, out in errs:
+        ck.corr_problem("glob correspondence shard %d did not evaluate (rc=%s)" % (k, rc), out)
+    bad = []
+    for k, ls in enumerate(per):
+        if ls is not None:
+            bad += [kept[k * 1500 + b] for b in ls[0]]
+    for p_, c, b in bad[:5]:
+        ck.corr_problem("Model/Glob.v and the transport's fnmatch disagree", "pattern %r, channel %r: fnmatch says %s" % (p_, c, b), case={"pattern": p_, "channel": c})
+    ck.notes["glob_correspondence"] = {"cases": len(kept), "disagreements": len(bad), "matching": sum(1 for x in kept if x[2])}
+    ck.cov["evaluations"] = ck.cov.get("evaluations", 0) + len(kept)
 
 
 def sequential_oracles(ck):
